@@ -56,7 +56,8 @@ def generate(tier, rng):
         kinds, targets = [], []
         for i in range(n):
             if light:
-                kinds.append("light")
+                # LightNodeMixin classes: fully slotted, without __slots__ (attributes in __dict__), or both
+                kinds.append(rng.choice(["light", "light", "lightdict", "lightmixed"]))
             else:
                 k = rng.choice(KINDS) if i > 0 else rng.choice(KINDS[:5])
                 kinds.append(k)
